@@ -18,9 +18,11 @@ RULE = ('(a) binding: seeded random statements with 1..4 positional or named pla
         'with the same statement carrying the values as literals; (b) folding: constant sub-expressions compared with the same '
         'expression over columns holding those constants; (c) histories: sequences of 2..6 (quick) / ..20 (thorough) executions on '
         'one connection mixing text and pre-parsed statements and executemany, every result compared with a fresh execution on a '
-        'fresh connection, plus a deep snapshot of the source rows before/after.  Non-trivial = statement has a placeholder / '
+        'fresh connection, plus a deep snapshot of the source rows before/after; the same on generated ledgers with metadata, balance and '
+        'summary statements in shuffled order;  (d) fixed statements whose compilation order differs from the textual order (placeholders in FROM '
+        'subqueries, nested subqueries, HAVING, ORDER BY) with pairwise different values.  Non-trivial = statement has a placeholder / '
         'history has a re-used parsed statement; distinct = distinct protocol line or history.')
-ASSUMPTIONS = ['"never mutates the source data" is checked by snapshot, not proved (the model is pure)']
+ASSUMPTIONS = ['"never mutates the source data" is checked by deep snapshots of the table rows and of the ledger directives (entry and posting metadata included), not proved (the model is pure)']
 
 PVALUES = {'int': [0, 3, 12], 'Decimal': [Decimal('1.5'), Decimal('0'), Decimal('10')], 'str': ['a', 'abc', ''],
            'date': [datetime.date(2020, 1, 1), datetime.date(2021, 3, 15)], 'bool': [True, False]}
@@ -70,7 +72,14 @@ def gen_param_statement(ctx, rng, named):
         sub = ast.Select([ast.Target(ast.Column('i'), None)], ast.Table('t'), eg.expr('bool', 1), None, None, None, None, None)
         cond = ast.In(ast.Column('j'), sub)
         where = cond if where is None else ast.And([where, cond])
-    sel = ast.Select(targets, ast.Table('t'), where, None, order, None, None, None)
+    frm = ast.Table('t')
+    if rng.chance(1, 3):
+        # a FROM subquery holding placeholders: it is compiled before the targets that precede it in the text
+        inner_targets = [ast.Target(ast.Column(c), None) for c in ('i', 'j', 's', 'd', 'b', 'dt')]
+        inner_targets.append(ast.Target(eg.expr(rng.choice(['int', 'str', 'Decimal']), 1), 'extra'))
+        frm = ast.Select(inner_targets, ast.Table('t'), eg.expr('bool', 1) if rng.chance(1, 2) else None, None, None, None, None, None)
+        targets.append(ast.Target(ast.Column('extra'), 'cx'))
+    sel = ast.Select(targets, frm, where, None, order, None, None, None)
     return sel, eg
 
 
@@ -253,7 +262,113 @@ def history_layer(ctx, nhist, maxlen):
             ctx.samples.append({'case': 'history', 'steps': repr(steps)[:400]})
 
 
+ORDER_TEXTS = [
+    # every placeholder gets a different value, so any permutation of the binding order shows
+    ('SELECT %s AS a, b, c FROM (SELECT %s AS b, %s AS c FROM #t LIMIT 1) WHERE %s = 4', (1, 2, 3, 4)),
+    ('SELECT %s AS a, b FROM (SELECT %s AS b, i FROM #t WHERE %s < 10) WHERE i IN (SELECT i FROM #t WHERE %s > 0) ORDER BY i + %s', (1, 2, 3, 4, 5)),
+    ('SELECT %s AS a FROM #t WHERE i >= %s GROUP BY i HAVING count(*) >= %s ORDER BY %s', (7, 0, 1, 9)),
+    ('SELECT %s AS a, %s AS b FROM (SELECT i FROM (SELECT i FROM #t WHERE %s = 3) WHERE %s = 4) WHERE %s = 5', (1, 2, 3, 4, 5)),
+]
+
+
+def order_layer(ctx):
+    """positional binding is textual order, also where compilation order differs (FROM subqueries, nesting, HAVING)"""
+    rng = ctx.rng
+    table = std_table(rng, nrows=4, small=True)
+    for text, params in ORDER_TEXTS:
+        parsed = parser.parse(text)
+        phs = sorted([n for n in parsed.walk() if isinstance(n, ast.Placeholder)], key=lambda n: n.parseinfo.pos)
+        byid = {id(p): v for p, v in zip(phs, params)}
+        lit = substitute(parsed, lambda n: byid[id(n)])
+        SqlCase([table], parsed, list(params), name='bind-order').check(ctx)
+        conn = impl.connection([table])
+        a = impl.run_select(conn, text, list(params))
+        b = impl.run_select(conn, lit)
+        ctx.count('order-oracle')
+        ctx.evaluations += 1
+        if _strip_names(a) != _strip_names(b):
+            ctx.record_violation('parameters-differ-from-literals', '%s %r | %s | %s' % (text, params, a[:200], b[:200]),
+                                 payload=SqlCase([table], text, list(params)).payload())
+
+
+LEDGER_QUERIES = [
+    "SELECT date, account, meta('note'), entry_meta('category'), any_meta('category'), any_meta('note')",
+    "SELECT any_meta('ref'), any_meta('nokey'), meta('nokey'), entry_meta('when')",
+    "SELECT getitem(meta, 'note', 'dflt'), getitem(entry.meta, 'category', 'x') FROM #postings",
+    "SELECT account, open_meta('owner'), commodity_meta('name') FROM #postings",
+    "SELECT account, sum(position), last(balance) GROUP BY account",
+    "SELECT date, narration, tags, links FROM #transactions ORDER BY date DESC",
+    "SELECT account, balance WHERE number > 0",
+    "SELECT account, meta FROM #accounts",
+    "BALANCES AT cost FROM year >= 2019",
+    "JOURNAL 'Assets' AT units",
+    "SELECT * FROM #prices",
+    "SELECT name, meta('name'), meta('rank') FROM #commodities",
+]
+
+
+def entries_snapshot(entries):
+    """a deep, comparison-friendly image of the directives including entry and posting metadata"""
+    from beancount.core import data
+    out = []
+    for e in entries:
+        fields = []
+        for f in e._fields:
+            v = getattr(e, f)
+            if f == 'meta':
+                v = sorted((k, repr(x)) for k, x in (v or {}).items())
+            elif f == 'postings':
+                v = [(p.account, repr(p.units), repr(p.cost), repr(p.price), p.flag,
+                      None if p.meta is None else sorted((k, repr(x)) for k, x in p.meta.items())) for p in v]
+            else:
+                v = repr(v)
+            fields.append((f, v))
+        out.append((type(e).__name__, fields))
+    return out
+
+
+def ledger_history_layer(ctx, nledgers):
+    """executing statements over ledger tables never changes the directives, and results do not depend on what ran before"""
+    import ledgers
+    rng = ctx.rng
+    for k in range(nledgers):
+        text, entries, errors, options = ledgers.gen_ledger(rng, ntxn=rng.range(6, 14))
+        conn = ledgers.connect(entries, errors, options)
+        before = entries_snapshot(entries)
+        fresh = {}
+        for q in LEDGER_QUERIES:
+            c2 = ledgers.connect(*ledgers.load(text))
+            try:
+                cur = c2.execute(q)
+                fresh[q] = proto.show_result(cur.description, cur.fetchall(), proto.Opaque())
+            except Exception as exc:  # noqa: BLE001
+                fresh[q] = impl.classify_exc(exc)
+        order = rng.shuffle(list(LEDGER_QUERIES) * 2)
+        for q in order:
+            try:
+                cur = conn.execute(q)
+                got = proto.show_result(cur.description, cur.fetchall(), proto.Opaque())
+            except Exception as exc:  # noqa: BLE001
+                got = impl.classify_exc(exc)
+            ctx.evaluations += 1
+            ctx.count('ledger-history')
+            if got != fresh[q]:
+                ctx.record_violation('history-dependent-result', 'ledger %d: %s gives %s after other statements, %s on a fresh connection'
+                                     % (k, q, got[:200], fresh[q][:200]), payload={'ledger': text, 'query': q})
+                break
+        if entries_snapshot(entries) != before:
+            after = entries_snapshot(entries)
+            diff = next((a, b) for a, b in zip(before, after) if a != b)
+            ctx.record_violation('source-data-mutated', 'ledger %d: directives changed by executing statements: %r -> %r'
+                                 % (k, diff[0], diff[1]), payload={'ledger': text})
+        ctx.nontrivial_hashes.add(hash(('ledger-history', text)))
+        if ctx.stop():
+            return
+
+
 def run(ctx):
+    order_layer(ctx)
+    ledger_history_layer(ctx, 8 if ctx.thorough() else 2)
     binding_layer(ctx, 1500 if ctx.thorough() else 250)
     folding_layer(ctx, 1500 if ctx.thorough() else 250)
     history_layer(ctx, 300 if ctx.thorough() else 60, 20 if ctx.thorough() else 6)
